@@ -69,7 +69,7 @@ def _dist(kind, pairs, rng):
 
 
 def build_mdp(m, *, rep="quick", labels="int", alabels="int", explicit_list=False, dist="dict",
-              rng=None, discount=None):
+              rng=None, discount=None, abs_int=False):
     """rep in {"quick", "subclass", "matrices"}; dist in {"dict", "dict_zeros", "det", "uniform"}.
 
     With dist="dict_zeros" zero-probability entries are listed only for states that are in the
@@ -104,7 +104,8 @@ def build_mdp(m, *, rep="quick", labels="int", alabels="int", explicit_list=Fals
         return _dist(dist, pairs, rng)
 
     def is_abs(s):
-        return bool(m["abs"][sidx[s]])
+        # abs_int: is_absorbing answers with the integers 0 / 1 (e.g. a lookup table) instead of bools
+        return int(m["abs"][sidx[s]]) if abs_int else bool(m["abs"][sidx[s]])
 
     if rep == "quick":
         mdp = QuickTabularMDP(next_state_dist=nsd, reward=reward, actions=actions,
@@ -152,7 +153,7 @@ def build_mdp(m, *, rep="quick", labels="int", alabels="int", explicit_list=Fals
             state_list=tuple(sl[s] for s in states), action_list=tuple(al),
             initial_state_vec=np.array([m["p0"][s] / ID for s in states]),
             transition_matrix=tf, action_matrix=am, reward_matrix=rf,
-            absorbing_state_vec=np.array([bool(m["abs"][s]) for s in states]),
+            absorbing_state_vec=np.array([(int if abs_int else bool)(m["abs"][s]) for s in states]),
             discount_rate=g)
     else:
         raise ValueError(rep)
